@@ -132,6 +132,19 @@ func regSingle[T signal.SignalTypes](name string) {
 			pp.Put(b)
 		}
 	})
+	put("poolCycleAcrossCopies", func(c *Case) func() {
+		// the allocator value is copied before its first use (e.g. handed to a producer and a
+		// consumer by value); all copies share the pool, so getting through one and putting
+		// through the other is still a steady-state cycle
+		p := signal.PoolAlloc[T](signal.Allocator{Channels: c.C, Length: 0, Capacity: c.F})
+		source, sink := p, p
+		ps, pk := &source, &sink
+		return func() {
+			b := ps.Get()
+			b.AppendSample(1)
+			pk.Put(b)
+		}
+	})
 	put("sliceEscaping", func(c *Case) func() {
 		b := mkBuf[T](c)
 		e := c.F
@@ -228,7 +241,7 @@ func init() {
 	regRow[float64]("float64")
 }
 
-var SingleOps = []string{"sampleGetSet", "appendSampleBelowCapacity", "appendSampleAtCapacity", "appendWithinCapacity", "appendWithinCapacityPartialFrames", "channelViewGetSet", "poolCycle", "sliceEscaping", "sliceLocal"}
+var SingleOps = []string{"sampleGetSet", "appendSampleBelowCapacity", "appendSampleAtCapacity", "appendWithinCapacity", "appendWithinCapacityPartialFrames", "channelViewGetSet", "poolCycle", "poolCycleAcrossCopies", "sliceEscaping", "sliceLocal"}
 var PairOps = []string{"write", "read", "writeStriped", "readStriped"}
 
 func Check(c *Case) (res kit.Result) {
